@@ -11,6 +11,7 @@ import Mfi.Model.Panic
 import Mfi.Lemmas.AccL
 import Mfi.Lemmas.SkelL
 import Mfi.Props.C15
+import Mfi.Lemmas.WorldL
 
 namespace Mfi.Props.C14
 open Mfi.Gate Mfi.Gen
@@ -106,5 +107,96 @@ theorem pause_in_force (c : Mfi.Panic.Cache) (now : Int) (hp : c.paused = true) 
   simp only [Mfi.Panic.protocolPaused, Mfi.Panic.isExpired, Mfi.Gen.PAUSE_DURATION_SECONDS]
   simp
   omega
+
+section whole_instructions
+open Mfi Mfi.World Mfi.Gen Mfi.Gen.Acc
+
+/-! ### whole instructions (Mfi/Model/World.lean) -/
+
+/-- **world_protocol_pause_refuses_first**: while the group is paused each of the five user instructions answers
+    `ProtocolPaused` — the pause is the first account check of every one of them (regenerated table), so no other
+    circumstance (signer, flags, bank state, amounts) changes the answer, and nothing is executed -/
+theorem world_protocol_pause_refuses_first (c : Ctx) (hp : c.g.paused = true) :
+    (∀ amt up, World.deposit c amt up = .error (.err E.ProtocolPaused)) ∧
+    (∀ amt all, World.withdraw c amt all = .error (.err E.ProtocolPaused)) ∧
+    (∀ amt, World.borrow c amt = .error (.err E.ProtocolPaused)) ∧
+    (∀ amt all, World.repay c amt all = .error (.err E.ProtocolPaused)) ∧
+    World.closeBalance c = .error (.err E.ProtocolPaused) := by
+  have h := paused_first c hp
+  simp only [List.forall_mem_cons, List.not_mem_nil, false_imp_iff, implies_true, and_true] at h
+  obtain ⟨h1, h2, h3, h4, h5⟩ := h
+  refine ⟨?_, ?_, ?_, ?_, ?_⟩
+  · intro amt up; simp [World.deposit, h1, bind, Except.bind]
+  · intro amt all; simp [World.withdraw, h2, bind, Except.bind]
+  · intro amt; simp [World.borrow, h3, bind, Except.bind]
+  · intro amt all; simp [World.repay, h4, bind, Except.bind]
+  · simp [World.closeBalance, h5, bind, Except.bind]
+
+/-- the operational state a successful instruction found the bank in -/
+theorem world_bank_state_gates (c : Ctx) :
+    (∀ amt up o, World.deposit c amt up = .ok o → Gate.OpState.ofInt c.b.opState = some .operational) ∧
+    (∀ amt o, World.borrow c amt = .ok o → Gate.OpState.ofInt c.b.opState = some .operational) ∧
+    (∀ amt all o, World.withdraw c amt all = .ok o →
+        Gate.OpState.ofInt c.b.opState = some .operational ∨ Gate.OpState.ofInt c.b.opState = some .reduceOnly) ∧
+    (∀ amt all o, World.repay c amt all = .ok o →
+        Gate.OpState.ofInt c.b.opState = some .operational ∨ Gate.OpState.ofInt c.b.opState = some .reduceOnly) := by
+  have strict : ∀ {s : Gate.OpState}, Gate.validateBankState s .failsIfPausedOrReduceState = none → s = .operational := by
+    intro s; cases s <;> simp [Gate.validateBankState]
+  have lax : ∀ {s : Gate.OpState}, Gate.validateBankState s .failsInPausedState = none → s = .operational ∨ s = .reduceOnly := by
+    intro s; cases s <;> simp [Gate.validateBankState]
+  refine ⟨?_, ?_, ?_, ?_⟩
+  · intro amt up o h
+    obtain ⟨s, hs, hv⟩ := bankState_ok (deposit_ok h).state
+    rw [hs, strict hv]
+  · intro amt o h
+    obtain ⟨b, _, _, _, _, _, _, hst, _⟩ := (borrow_ok h).core
+    obtain ⟨s, hs, hv⟩ := bankState_ok hst
+    rw [hs, strict hv]
+  · intro amt all o h
+    obtain ⟨s, hs, hv⟩ := bankState_ok (withdraw_ok h).state
+    rw [hs]; rcases lax hv with rfl | rfl <;> simp
+  · intro amt all o h
+    obtain ⟨s, hs, hv⟩ := bankState_ok (repay_ok h).state
+    rw [hs]; rcases lax hv with rfl | rfl <;> simp
+
+/-- **world_killed_or_paused_bank_untouched**: a bank that is paused or killed by bankruptcy takes no deposit, withdrawal,
+    borrow or repayment; a reduce-only bank takes no deposit and no borrow -/
+theorem world_killed_or_paused_bank_untouched (c : Ctx)
+    (h : Gate.OpState.ofInt c.b.opState = some .paused ∨ Gate.OpState.ofInt c.b.opState = some .killedByBankruptcy) :
+    (∀ amt up, (World.deposit c amt up).isOk = false) ∧ (∀ amt, (World.borrow c amt).isOk = false) ∧
+    (∀ amt all, (World.withdraw c amt all).isOk = false) ∧ (∀ amt all, (World.repay c amt all).isOk = false) := by
+  obtain ⟨g1, g2, g3, g4⟩ := world_bank_state_gates c
+  refine ⟨?_, ?_, ?_, ?_⟩
+  · intro amt up
+    cases hr : World.deposit c amt up with
+    | error e => rfl
+    | ok o => have := g1 amt up o hr; rcases h with h | h <;> simp [h] at this
+  · intro amt
+    cases hr : World.borrow c amt with
+    | error e => rfl
+    | ok o => have := g2 amt o hr; rcases h with h | h <;> simp [h] at this
+  · intro amt all
+    cases hr : World.withdraw c amt all with
+    | error e => rfl
+    | ok o => have := g3 amt all o hr; rcases h with h | h <;> simp [h] at this
+  · intro amt all
+    cases hr : World.repay c amt all with
+    | error e => rfl
+    | ok o => have := g4 amt all o hr; rcases h with h | h <;> simp [h] at this
+
+theorem world_reduce_only_bank_takes_no_deposit_or_borrow (c : Ctx) (h : Gate.OpState.ofInt c.b.opState = some .reduceOnly) :
+    (∀ amt up, (World.deposit c amt up).isOk = false) ∧ (∀ amt, (World.borrow c amt).isOk = false) := by
+  obtain ⟨g1, g2, _, _⟩ := world_bank_state_gates c
+  refine ⟨?_, ?_⟩
+  · intro amt up
+    cases hr : World.deposit c amt up with
+    | error e => rfl
+    | ok o => have := g1 amt up o hr; simp [h] at this
+  · intro amt
+    cases hr : World.borrow c amt with
+    | error e => rfl
+    | ok o => have := g2 amt o hr; simp [h] at this
+
+end whole_instructions
 
 end Mfi.Props.C14
